@@ -165,6 +165,21 @@ CHECKS['C04'] = {
     'technique': 'symbolic execution (CrossHair/z3) of every overload body and aggregator with typed stub operands',
 }
 
+CHECKS['C18'] = {
+    'text': 'One law per condition over the whole stated domain: date_trunc (first day of the unit, <= d, idempotent, '
+            'monotone) and date_part / year / month / day / quarter for every date 1900-2100 as symbolic (y, m, d); '
+            'date_add / date_diff inverse for |k| <= 10^5; interval texts and date + interval against calendar arithmetic; '
+            'substr / upper / lower / length on symbolic strings; date(y, m, d); and, enumerated natively where the solver '
+            'cannot reach (float and relativedelta loops, regular expressions, weekday arithmetic): date_bin for 13 strides '
+            'x 72 x 72 dates, week laws on every day of 5 years, account-name decomposition, regex / set functions, '
+            'decimal numerics, and the casts on 31 inputs of every type (never an exception).',
+    'design_ref': 'DESIGN.md section 5, C18',
+    'note': _COMMON_NOTE + ' Conditions whose bounds say "enumerated" run the function natively on every element of the '
+            'stated finite domain; the solver is not involved there.',
+    'technique': 'symbolic execution (CrossHair/z3) of the scalar functions over symbolic dates, ints and strings; '
+                 'bounded exhaustive enumeration elsewhere',
+}
+
 NOT_APPLICABLE = {
     pid: 'check under construction in this session; not claimed yet'
     for pid in ['C06', 'C11', 'C12', 'C13', 'C14', 'C16', 'C17', 'C18', 'C19', 'C20']
